@@ -1,15 +1,34 @@
 import Resgate.Proofs.Encode
+import Resgate.Proofs.EncodeSpec
 
 /-
 C16 — HTTP resources are a faithful, finite rendering of the resource graph.
 The encoders are modelled as written (string concatenation along the walk, `path` stack); their
 definition by well-founded recursion on the number of graph nodes not on the path is accepted by
 Lean, which is the proof that the expansion terminates on every finite graph, cyclic or not.
+`get_is_rendered_expansion` is the full statement for GET: the bytes the encoders write are the
+print-out of the recursive expansion (a JSON tree: `Model/EncodeSpec.lean`), whose printer emits
+well-formed JSON by construction given well-formed leaves (service values, validated by
+`encoding/json` when they enter the cache).
 POST (result verbatim / 204 / Location) is not modelled yet.
 -/
 
 namespace Resgate.C16
 open Resgate.Enc
+
+/-- **GET returns the printed recursive expansion**, for every graph (cycles of any length, shared
+    children, error leaves, soft references, data values), both encodings and every prefix:
+    referenced resources nested in place (`wrapJ`: href plus model/collection/error in `json`, the
+    bare content in `jsonflat`), soft references and path re-entries as href only, data values
+    unwrapped, failed references as their error. -/
+theorem get_is_rendered_expansion (g : HGraph) (pref : String) (flat : Bool) (rid : String) :
+    encodeGET g pref flat rid = (expandGET g pref flat rid).map J.render :=
+  encodeGET_eq_render g pref flat rid
+
+/-- The same below the root: a reference at any depth prints the expansion of its target. -/
+theorem reference_is_rendered_expansion (g : HGraph) (pref : String) (flat : Bool) (path : List String) (rid : String) :
+    encSub g pref flat path rid true = (expSub g pref flat path rid true).map J.render :=
+  encSub_eq_render g pref flat _ path rfl rid true (Or.inl rfl)
 
 /-- On every finite graph in which references resolve (cycles of any length, self references,
     shared children, error leaves), GET produces a body for every resource — the expansion
@@ -52,5 +71,14 @@ example : Closed [("a", .model [("k", .ref "b")]), ("b", .coll [.ref "a", .soft 
   · split at h
     · simp at h; subst h; intro v hv; simp at hv; rcases hv with rfl | rfl <;> simp [valResolves, lookup]
     · simp at h
+
+-- non-vacuity of the refinement: the expansion of a self-referencing model with a soft reference
+example : expandGET [("a", .model [("k", .ref "a"), ("s", .soft "b")])] "/api/" false "a"
+    = some (.obj [("k", hrefJ "a" "/api/"), ("s", hrefJ "b" "/api/")]) := by
+  have hl : lookup [("a", HNode.model [("k", .ref "a"), ("s", .soft "b")])] "a" = some (.model [("k", .ref "a"), ("s", .soft "b")]) := by
+    simp [lookup]
+  rw [expandGET, expSub_model _ _ _ _ _ _ _ (by simp) hl]
+  rw [expKVs, expVal, expSub, expKVs, expVal, expKVs]
+  simp [wrapJ]
 
 end Resgate.C16
